@@ -158,14 +158,12 @@ Lemma simple_primitive op w r : op <> OpExact -> canonical_version w -> term r -
   simple (op_text op ++ vprint w ++ r) = (primitive_tbl op (full_partial w), r).
 Proof.
   intros Hop Cw Hr. unfold simple, terminated_p.
-  assert (Hh : hyphen_p (op_text op ++ vprint w ++ r) = None).
-  { destruct op; cbn [op_text app]; try congruence; apply hyphen_p_op; auto. }
-  rewrite Hh, (primitive_p_print op w r Hop Cw Hr). unfold term in Hr. now rewrite Hr.
+  rewrite (primitive_p_print op w r Hop Cw Hr). unfold term in Hr. now rewrite Hr.
 Qed.
 Lemma simple_bare w r : canonical_version w -> term r -> (r = [] \/ exists t, r = 124 :: t) ->
   simple (vprint w ++ r) = (exact w, r).
 Proof.
-  intros Cw Hr Hb. unfold simple, terminated_p. rewrite (hyphen_p_version w r Cw Hr Hb).
+  intros Cw Hr Hb. unfold simple, terminated_p.
   destruct (vprint_head w) as (c & t & E & Hc).
   assert (Hp : primitive_p (vprint w ++ r) = None).
   { unfold primitive_p. rewrite E. cbn [app]. now rewrite (operation_digit c _ Hc). }
@@ -197,10 +195,14 @@ Proof. destruct p; try congruence; reflexivity. Qed.
 Lemma bmin_unb p : p <> Unbounded -> bmin (Upper Unbounded) (Upper p) = Upper p.
 Proof. destruct p; try congruence; reflexivity. Qed.
 
+Lemma range_p_no_hyphen s : hyphen_p s = None -> range_p s = simples_p s.
+Proof. intro H. unfold range_p. now rewrite H. Qed.
+Lemma hyphen_p_op_text op t : op <> OpExact -> hyphen_p (op_text op ++ t) = None.
+Proof. intro Hop. destruct op; cbn [op_text app]; try congruence; apply hyphen_p_op; auto. Qed.
 Lemma one_token op w r : op <> OpExact -> canonical_version w -> alt_end r ->
   range_p (op_text op ++ vprint w ++ r) = Some (and_fold (flatten_opts [primitive_tbl op (full_partial w)]), r).
 Proof.
-  intros Hop Cw Hr. unfold range_p. rewrite (simple_primitive op w r Hop Cw (alt_end_term r Hr)).
+  intros Hop Cw Hr. rewrite range_p_no_hyphen by now apply hyphen_p_op_text. unfold simples_p. rewrite (simple_primitive op w r Hop Cw (alt_end_term r Hr)).
   now rewrite (simples_tail_stop _ r Hr).
 Qed.
 Lemma two_tokens op1 w1 op2 w2 r : op1 <> OpExact -> op2 <> OpExact -> (op2 = OpLT \/ op2 = OpLTE) ->
@@ -208,7 +210,7 @@ Lemma two_tokens op1 w1 op2 w2 r : op1 <> OpExact -> op2 <> OpExact -> (op2 = Op
   range_p (op_text op1 ++ vprint w1 ++ 32 :: op_text op2 ++ vprint w2 ++ r) =
   Some (and_fold (flatten_opts [primitive_tbl op1 (full_partial w1); primitive_tbl op2 (full_partial w2)]), r).
 Proof.
-  intros H1 H2 H2' C1 C2 Hr. unfold range_p.
+  intros H1 H2 H2' C1 C2 Hr. rewrite range_p_no_hyphen by now apply hyphen_p_op_text. unfold simples_p.
   rewrite (simple_primitive op1 w1 (32 :: op_text op2 ++ vprint w2 ++ r) H1 C1) by reflexivity.
   cbn [length]. cbn [simples_tail space1 is_space N.eqb Pos.eqb orb].
   assert (Es : space0 (op_text op2 ++ vprint w2 ++ r) = op_text op2 ++ vprint w2 ++ r) by (destruct H2' as [-> | ->]; reflexivity).
@@ -256,7 +258,8 @@ Proof.
     + injection Hp as <-. exists (mkBS (Upper (Including vl)) (Lower (Including vl))).
       split; [|split; [unfold bs_eqb, bound_eqb, pred_eqb; cbn [bs_upper bs_lower]; now rewrite Refl, Ev
                       | unfold bs_print; cbn [bs_upper bs_lower]; now rewrite Refl]].
-      unfold range_p. rewrite (simple_bare vl r Cl (alt_end_term r Hr) (alt_end_bar r Hr)).
+      rewrite range_p_no_hyphen by (apply hyphen_p_version; [exact Cl|exact (alt_end_term r Hr)|exact (alt_end_bar r Hr)]).
+      unfold simples_p. rewrite (simple_bare vl r Cl (alt_end_term r Hr) (alt_end_bar r Hr)).
       rewrite (simples_tail_stop _ r Hr). unfold exact, bs_new. now rewrite Refl.
     + injection Hp as <-. exists (mkBS (Upper (Including vu)) (Lower (Including vl))). split; [|split; [apply bs_eqb_refl|try reflexivity; unfold bs_print; cbn [bs_upper bs_lower]; now rewrite Ev]].
       norm_text. pose proof (two_tokens OpGTE vl OpLTE vu r) as T. cbn [op_text app] in T. rewrite T by (auto; discriminate).
